@@ -2,7 +2,7 @@
 
 Tie:
   vcf_load : `Sample(gene, profile, vcf).coverage` for generated bgzip+tabix VCFs (catalogued
-             variants as left-anchored records, GT in {0/0, 0/1, 1/1, 1/2, ./., haploid}, phased or
+             variants as left-anchored records, GT in {0/0, 0/1, 1/1, 1/2, ./., half-missing ./1 1/. .|1 ./0, haploid}, phased or
              not, several samples, REF mismatches, unrelated and odd-shaped records) == Lean
              `loadVcf` + table assembly + Coverage constructor rule
 Oracle (always on; the search): per catalogued variant and genotype the property's expectation -
@@ -101,8 +101,9 @@ def gen_case(r, gdesc):
                     style = "deleted_bases_differ_from_reference"
                 vr2.append((p_, ref_, alt_))
             vr = vr2
-        gt = r.choice(["0/0", "0/1", "1/1", "0|1", "1|0", "1|1", "./.", "1", "0/1/1"])
-        copies = {"0/0": 0, "0/1": 1, "1/1": 2, "0|1": 1, "1|0": 1, "1|1": 2, "./.": None, "1": None, "0/1/1": None}[gt]
+        # (half-missing calls `./1`, `1/.`, `.|1` - decomposed multi-allelic records, merged call sets - are incomplete: ignored)
+        gt = r.choice(["0/0", "0/1", "1/1", "0|1", "1|0", "1|1", "./.", "1", "0/1/1", "./1", "1/.", ".|1", "./0"])
+        copies = {"0/0": 0, "0/1": 1, "1/1": 2, "0|1": 1, "1|0": 1, "1|1": 2}.get(gt)
         for p, ref, alt in vr:
             used_pos.add(p)
             gts = {s: (gt if s == samples[idx] else r.choice(["0/0", "0/1", "1/1", "./."])) for s in samples}
